@@ -78,35 +78,6 @@ def targeted_search(run, proj, d, q, stats):
         c01.judge(run, "C13", proj, text, v, res, stats, [])
 
 
-def directed_cases(rng, proj, kinds):
-    """expansions that are easy to get wrong and that random generation meets only by luck: an argument whose alias is
-    spelled like a later formal (renaming must be simultaneous), escaped quotes in a literal of a predicate body or of
-    the WHERE text before a call, a formal spelled like the predicate, a call inside a literal"""
-    small = [k for k in ("class_declaration", "method_declaration", "variable_declaration") if k in kinds and 1 <= len(proj.by_kind.get(k, [])) <= 40]
-    if len(small) < 2:
-        return
-
-    def cmp(alias, kind, lit=None, op=None):
-        v = lit if lit is not None else rng.choice(proj.values.get((kind, "getName")) or ["zz"])
-        return ("atom", (QG.ident(alias), QG.sym("."), QG.ident("getName"), QG.sym("("), QG.sym(")"), QG.sym(op or rng.choice(["==", "!="])), QG.strlit(QG.esc_lit(v))))
-    for _ in range(4):
-        k1, k2 = rng.sample(small, 2)
-        for (f1, f2, a1, a2) in (("m", "c", "c", "k"), ("x", "y", "y", "x"), ("a", "b", "b", "c"), ("p", "q", "q", "p")):
-            body = QG.mk(rng.choice(["and", "or"]), cmp(f1, k1), cmp(f2, k2))
-            pr = QG.Pred("isIn", [(k1, f1), (k2, f2)], body)
-            call = ("call", "isIn", (a1, a2))
-            for cond in (call, QG.mk("not", call), QG.mk("and", cmp(a1, k1, op="!=", lit="q\"r"), call), QG.mk("or", call, cmp(a2, k2, lit="say \"hi\" (x)"))):
-                yield c01.make_query([(k1, a1), (k2, a2)], cond, a1, preds=[pr])
-        # escaped quotes inside the body; a literal that looks like the call
-        k = rng.choice(small)
-        body = QG.mk("and", cmp("n", k, op="!=", lit="a\"b"), cmp("n", k))
-        pr = QG.Pred("chk", [(k, "n")], body)
-        call = ("call", "chk", ("x",))
-        for cond in (call, QG.mk("and", cmp("x", k, op="!=", lit="chk(x)"), call), QG.mk("or", cmp("x", k, op="==", lit="\"chk(x)\""), call),
-                     QG.mk("and", cmp("x", k, op="!=", lit="tail\\"), call)):
-            yield c01.make_query([(k, "x")], cond, "x", preds=[pr])
-
-
 def run(run):
     C.build_driver()
     h, d = C.Harness(), C.Driver()
@@ -125,7 +96,7 @@ def run(run):
                     res = E.engine_case(proj, d, text, v)
                     run.count(("pred-shape", text))
                     c01.judge(run, "C13", proj, text, v, res, stats, mism)
-                for v in directed_cases(rng, proj, kinds):
+                for v in c01.directed_cases(rng, proj, kinds):
                     text = QG.plain(v)
                     res = E.engine_case(proj, d, text, v)
                     run.count(("directed", text))
